@@ -106,6 +106,7 @@ func runC10(c *core.Ctx) {
 	c.RuleDoc("R10.3", "memoised info comes from the source")
 	c.RuleDoc("R10.4", "directory handle lists the source")
 	c.RuleDoc("R10.5", "a copy that was not written and closed successfully does not stay in the cache")
+	c.RuleDoc("R10.12", "the fill uses no buffer kept in the file system value (= R11.4)")
 	c.RuleDoc("R10.11", "the cache copy is chmod-ed with the source's whole mode")
 	c.RuleDoc("R10.10", "the cache copy is created with the source's mode itself")
 	c.RuleDoc("R10.9", "the fill reads a freshly opened (or rewound) source handle, it is never retried on a handle already read from")
@@ -137,6 +138,9 @@ func runC10(c *core.Ctx) {
 		r11FillOncePerHandle(c, p, sh, "R10.9")
 		r10CopyKeepsMode(c, p, sh)
 		r10CopyGetsWholeMode(c, p, sh)
+		// R10.12 (= R11.4): the fill copies through a buffer of its own — a buffer kept in the FS value is shared by the
+		// fills of different names, which run concurrently: a cached copy then holds another file's bytes
+		r11NoSharedBuffer(c, p, sh, "R10.12")
 	}
 	c.Floor("R10.5", 2)
 	c.Floor("R10.7", 2)
@@ -144,6 +148,7 @@ func runC10(c *core.Ctx) {
 	c.Floor("R10.9", 1)
 	c.Floor("R10.10", 1)
 	c.Floor("R10.11", 1)
+	c.Floor("R10.12", 1)
 	c.Floor("R10.1", 1)
 	c.Floor("R10.2", 1)
 	c.Floor("R10.3", 1)
@@ -440,7 +445,7 @@ func runC11(c *core.Ctx) {
 		}
 		// ---- R11.2 / R11.3 in the fill function ----
 		r11Fill(c, p, sh, "R11.2", "R11.3")
-		r11NoSharedBuffer(c, p, sh)
+		r11NoSharedBuffer(c, p, sh, "R11.4")
 		r10Rewind(c, p, sh, "R11.6")
 		r10NeverServeMark(c, p, sh, "R11.7")
 		r11FillOncePerHandle(c, p, sh, "R11.8")
@@ -607,7 +612,7 @@ func singleStored(v ssa.Value) ssa.Value {
 // r11NoSharedBuffer (R11.4): the lock that serialises fills is per path, so fills of two different names run
 // concurrently; the fill therefore uses no slice kept in the file system value (a scratch buffer shared by all
 // fills mixes the bytes of two files).
-func r11NoSharedBuffer(c *core.Ctx, p *load.Program, sh *cacheShape) {
+func r11NoSharedBuffer(c *core.Ctx, p *load.Program, sh *cacheShape, rule string) {
 	for _, fn := range []*ssa.Function{sh.copy, sh.open} {
 		if fn == nil {
 			continue
@@ -616,6 +621,19 @@ func r11NoSharedBuffer(c *core.Ctx, p *load.Program, sh *cacheShape) {
 		key := fname(fn) + "|no-shared-buffer"
 		bad := ""
 		ssax.InstrsDeep(fn, func(f *ssa.Function, ins ssa.Instruction) {
+			// an array field sliced in place (fs.buf[:]) is a shared buffer too
+			if sl, ok := ins.(*ssa.Slice); ok {
+				if fa, ok := sl.X.(*ssa.FieldAddr); ok {
+					base := fa.X
+					if fv, ok := base.(*ssa.FreeVar); ok {
+						base = ssax.ResolveFreeVar(fv)
+					}
+					if base == ssa.Value(recv) {
+						bad = fmt.Sprintf("%s.%s (%s) at %s", typeKey(sh.named), ssax.FieldName(fa), sl.Type(), p.Pos(sl.Pos()))
+					}
+				}
+				return
+			}
 			u, ok := ins.(*ssa.UnOp)
 			if !ok || u.Op != token.MUL {
 				return
@@ -635,7 +653,7 @@ func r11NoSharedBuffer(c *core.Ctx, p *load.Program, sh *cacheShape) {
 				bad = fmt.Sprintf("%s.%s (%s) at %s", typeKey(sh.named), ssax.FieldName(fa), u.Type(), p.Pos(u.Pos()))
 			}
 		})
-		c.Check(bad == "", "R11.4", key, p.Pos(fn.Pos()), "the fill works on local buffers only",
+		c.Check(bad == "", rule, key, p.Pos(fn.Pos()), "the fill works on local buffers only",
 			fmt.Sprintf("%s uses the slice %s, which all fills share, while only the per-path lock is held: fills of two different names run concurrently and overwrite each other's bytes in it, so a cached copy can hold another file's content", fname(fn), bad))
 	}
 }
